@@ -22,6 +22,8 @@ PROTO = "sd.ServiceDiscoveryProtocol"
 
 
 def check(run, prog, tier):
+    from . import model as _model
+    _model.audit(run, prog, 'C12')
     # which instances answer is decided from the live instance list / running state
     cache_coherence(run, prog, "F6", ['sd.ServiceAnnouncer', 'sd.ServiceInstance'])
     run.explanation = (
